@@ -79,6 +79,10 @@ pub fn generate(seed: u64, cases: usize, tier_thorough: bool, out: &mut Vec<Stri
                 out.push(format!("wal flip {} {}", r.below(bits as u64), line));
             }
         }
+        // crash image taken right after a successful sync(), in three durability modes
+        for mode in ["b", "s", "n"] {
+            out.push(format!("wal synced {} {}", mode, line));
+        }
         // continuation: crash at k, reopen, write more, close, recover
         for _ in 0..4 {
             let k = r.below(total as u64 + 1);
@@ -147,6 +151,31 @@ pub fn run(args: &[&str]) -> String {
                 std::fs::create_dir_all(&d2).unwrap();
                 std::fs::write(d2.join("wal_00000000.log"), &bytes).unwrap();
                 recover_dir(&d2)
+            }
+            // what is on disk after a successful sync() while the manager is still alive (a crash image
+            // taken then must hold every record logged before the sync): mode b = Batch with
+            // thresholds that are never reached, s = Sync, n = NoSync
+            ["synced", mode, rest @ ..] => {
+                let durability = match *mode {
+                    "b" => DurabilityMode::Batch { max_delay_ms: 3_600_000, max_records: 1_000_000 },
+                    "s" => DurabilityMode::Sync,
+                    _ => DurabilityMode::NoSync,
+                };
+                let cfg = WalConfig { durability, ..WalConfig::default() };
+                let wal = WalManager::with_config(&dir, cfg).unwrap();
+                for r in parse_recs(rest) {
+                    wal.log(&r).unwrap();
+                }
+                wal.sync().unwrap();
+                // copy the files while `wal` (and its BufWriter) is alive: no drop, no flush-on-drop
+                let d2 = tmp.path().join("image");
+                std::fs::create_dir_all(&d2).unwrap();
+                for f in wal.log_files().unwrap() {
+                    std::fs::copy(&f, d2.join(f.file_name().unwrap())).unwrap();
+                }
+                let out = recover_dir(&d2);
+                drop(wal);
+                out
             }
             ["cont", k, rest @ ..] => {
                 let pos = rest.iter().position(|x| *x == "|").unwrap();
